@@ -286,3 +286,7 @@ V("C08", "eig_run_no_jacobian_refresh", "violation", (EIG, "            system.T
 V("C08", "benign_eig_refresh_via_itm_step", "silent", (EIG, "            system.TDS.fg_update(system.exist.pflow_tds)\n            system.j_update(system.exist.pflow_tds)\n", "            system.TDS.itm_step()\n"))
 V("C13", "mpc_end_marker_swallows_row", "violation", (MPCF, "            line = line.split(']')[0]\n            closing = True\n            if not has_digit.search(line):\n                field = None\n                continue\n", "            field = None\n            continue\n"), rule="C13.mpc-lexer")
 V("C13", "benign_mpc_end_marker_anchored", "silent", (MPCF, "    end = re.compile(r'\\s*\\];?')", "    end = re.compile(r'\\s*\\]\\s*;?')"))
+V("C14", "dae_reset_keeps_rhs_counters", "violation", (DAEF, "        self.p = 0\n        self.q = 0\n        self.resize_arrays()", "        self.resize_arrays()"), rule="C14.reset")
+V("C14", "dae_reset_time_zero", "violation", (DAEF, "        self.set_t(-1.0)\n        self.m = 0", "        self.set_t(0.0)\n        self.m = 0"), rule="C14.reset")
+V("C11", "dae_reset_time_zero", "violation", (DAEF, "        self.set_t(-1.0)\n        self.m = 0", "        self.set_t(0.0)\n        self.m = 0"), rule="C11.reset")
+V("C14", "benign_dae_reset_tuple_zero", "silent", (DAEF, "        self.m = 0\n        self.n = 0\n        self.o = 0\n        self.p = 0\n        self.q = 0\n", "        self.m, self.n, self.o, self.p, self.q = 0, 0, 0, 0, 0\n"))
